@@ -204,6 +204,64 @@ pub fn search(seed: u64, n: u64) {
         stats.count("corpus_case");
         check_scene(&mut stats, &mut rng, paths, *w, *h, 10);
     }
+    // a join at which the outline passes through the row while BOTH neighbouring curves reverse their y-direction along their length (one dips
+    // before the join, the other arches after it): the two hits at the join are one crossing, decided by the y-tangents AT THE JOIN (own
+    // stream; scanned exactly at the join's y, keyed on its own: on the unchanged code these rows are right)
+    let mut rng_j = Rng(seed ^ 0x7013C16);
+    for k in 0..(6 + n / 20) {
+        let (sx, sy) = (rng_j.r(1.0, 2.4), rng_j.r(1.0, 3.5));
+        let (ox, oy) = (rng_j.r(2.0, 10.0), rng_j.r(2.0, 20.0));
+        let flip = k % 2 == 1;
+        let q = |x: f64, y: f64| Coord2(ox + sx * x, if flip { oy + sy * (24.0 - y) } else { oy + sy * y });
+        let path = flo_curves::bezier::path::BezierPathBuilder::<P>::start(q(4.0, 12.0))
+            .curve_to((q(4.0, 4.0), q(10.0, 6.0)), q(10.0, 10.0))
+            .curve_to((q(10.0, 14.0), q(16.0, 16.0)), q(16.0, 8.0))
+            .line_to(q(20.0, 12.0))
+            .curve_to((q(20.0, 4.0), q(26.0, 6.0)), q(26.0, 10.0))
+            .curve_to((q(26.0, 14.0), q(32.0, 16.0)), q(32.0, 8.0))
+            .line_to(q(36.0, 8.0)).line_to(q(36.0, 20.0)).line_to(q(0.0, 20.0)).line_to(q(0.0, 12.0)).line_to(q(4.0, 12.0)).build();
+        let path = redirect(&mut rng_j, &path);
+        let paths = vec![path];
+        stats.case(&format!("crossing join between reversing curves {:?}", paths), true);
+        stats.count("scene.crossing_join_between_reversing_curves");
+        let sc = Scene { paths: paths.clone(), flat: flatten_set(&paths), fine: flatten_set_fine(&paths), width: 100, height: 100 };
+        let detail = || format!("paths={:?}", sc.paths);
+        let contour = match run_caught(&mut stats, PROP, "PathContour::from_path", &detail, || PathContour::from_path(paths.clone(), ContourSize(100, 100))) { Some(c) => c, None => continue };
+        let tpaths: Vec<P> = paths.iter().map(transposed).collect();
+        let tcontour = match run_caught(&mut stats, PROP, "PathContour::from_path", &detail, || PathContour::from_path(tpaths.clone(), ContourSize(100, 100))) { Some(c) => c, None => continue };
+        let jy = q(10.0, 10.0).1;
+        check_scan(&mut stats, &mut rng_j, &sc, &contour, &tcontour, jy, "crossing_join_between_reversing_curves", false, &detail);
+        // the transposed scene, scanned as a column through the same joins
+        let tsc = Scene { paths: tpaths.clone(), flat: flatten_set(&tpaths), fine: flatten_set_fine(&tpaths), width: 100, height: 100 };
+        let tdetail = || format!("paths={:?}", tsc.paths);
+        check_scan(&mut stats, &mut rng_j, &tsc, &tcontour, &contour, jy, "crossing_join_between_reversing_curves", true, &tdetail);
+    }
+    // the START vertex of a path as a join at which the boundary passes through the row: the two hits there come from the first and the last
+    // curve of the table (own stream; convex polygons and smooth blobs whose start vertex is their leftmost or rightmost one, scanned exactly
+    // at the start vertex's y; keyed on its own: on the unchanged code these rows are right)
+    let mut rng_s = Rng(seed ^ 0x57A7C16);
+    for k in 0..(6 + n / 20) {
+        // integer coordinates: start vertex S leftmost (or rightmost), its two neighbours strictly above and strictly below its row
+        let g = |rng: &mut Rng, lo: i64, hi: i64| (lo + rng.i((hi - lo + 1) as u64) as i64) as f64;
+        let (sx, sy0) = (g(&mut rng_s, 5, 30), g(&mut rng_s, 30, 70));
+        let up = Coord2(sx + g(&mut rng_s, 5, 25), sy0 - g(&mut rng_s, 5, 25));
+        let down = Coord2(sx + g(&mut rng_s, 5, 25), sy0 + g(&mut rng_s, 5, 25));
+        let far = Coord2(up.0.max(down.0) + g(&mut rng_s, 5, 30), sy0 + g(&mut rng_s, -4, 4));
+        let mut pts = vec![Coord2(sx, sy0), up, far, down];
+        if k % 2 == 1 { for q in pts.iter_mut() { q.0 = 100.0 - q.0; } }
+        let path = if k % 4 < 2 { polygon(&pts) } else { let mut r = pts.clone(); r[1..].reverse(); polygon(&r) };
+        // keep the start vertex: no rotation of the start
+        let paths = vec![path];
+        stats.case(&format!("start vertex crossing join {:?}", paths), true);
+        stats.count("scene.start_vertex_crossing_join");
+        let sc = Scene { paths: paths.clone(), flat: flatten_set(&paths), fine: flatten_set_fine(&paths), width: 100, height: 100 };
+        let detail = || format!("paths={:?}", sc.paths);
+        let contour = match run_caught(&mut stats, PROP, "PathContour::from_path", &detail, || PathContour::from_path(paths.clone(), ContourSize(100, 100))) { Some(c) => c, None => continue };
+        let tpaths: Vec<P> = paths.iter().map(transposed).collect();
+        let tcontour = match run_caught(&mut stats, PROP, "PathContour::from_path", &detail, || PathContour::from_path(tpaths.clone(), ContourSize(100, 100))) { Some(c) => c, None => continue };
+        let sy = paths[0].0 .1;
+        check_scan(&mut stats, &mut rng_s, &sc, &contour, &tcontour, sy, "start_vertex_crossing_join", false, &detail);
+    }
     for _ in 0..n {
         // path sets as in C01 (one operand, or both operands side by side when they do not overlap is not required: one set)
         let pair = gen_pair(&mut rng);
